@@ -347,6 +347,67 @@ Section Wash.
       destruct F as [wl [o [A [B [C [D [_ F]]]]]]]. exists o. repeat split; auto; try congruence.
   Qed.
 
+  (* RUnpayable with its energy condition: the candidate (the pooled object with the pricing this wash published on it)
+     was not executable and had no pricing, or its payer's energy at the next block time is below pending + cost,
+     pending being the payer's pending cost in the pool q as it stood when the candidate's turn came *)
+  Lemma tag_reason r l h r' : In (h, r') (tag r l) -> r' = r.
+  Proof. unfold tag. intro H. apply in_map_iff in H. destruct H as [o [E _]]. inversion E. auto. Qed.
+
+  Theorem unpayable_energy_reason p h :
+    In (h, RUnpayable) (wr_removed (wash env p)) ->
+    exists o' q, hash o' = h /\ executable o' = false /\
+      (price o' = None \/
+       exists pc, price o' = Some pc /\ w_energy env (payer pc) < aget (cost q) (payer pc) + pcost pc).
+  Proof.
+    unfold wash. set (a := run_phase1 env p).
+    pose proof (p1inv_run env p) as PI. fold a in PI.
+    destruct (apply_limits (w_limit env) (sort_desc (p1_exec a)) (p1_nonexec a)) as [kept over] eqn:EL.
+    destruct (publish (p1_pool a) (w_energy env) (sort_desc (kept ++ p1_localexec a))) as [[p2 pub] bad] eqn:EP.
+    cbn [wr_removed]. intro Hin. apply in_app_or in Hin. destruct Hin as [Hin|Hin].
+    { destruct PI as [Hr _]. destruct (Hr _ _ Hin) as [o [_ [_ C]]]. cbn in C. contradiction. }
+    apply in_app_or in Hin. destruct Hin as [Hin|Hin].
+    { exfalso. unfold apply_limits in EL.
+      destruct (Nat.ltb (w_limit env) (length (sort_desc (p1_exec a)))).
+      - inversion EL; subst. apply in_app_or in Hin. destruct Hin as [X|X]; apply tag_reason in X; discriminate.
+      - destruct (Nat.ltb (w_limit env) (length (sort_desc (p1_exec a)) + length (p1_nonexec a))).
+        + inversion EL; subst. apply tag_reason in Hin. discriminate.
+        + destruct (Nat.ltb (Nat.div (w_limit env * 2) 10) (length (p1_nonexec a))); inversion EL; subst.
+          * apply tag_reason in Hin. discriminate.
+          * destruct Hin. }
+    apply in_map_iff in Hin. destruct Hin as [h' [Eq Hb]]. inversion Eq; subst.
+    assert (Hb' : In h (snd (publish (p1_pool a) (w_energy env) (sort_desc (kept ++ p1_localexec a))))) by (rewrite EP; auto).
+    destruct (publish_drop_energy _ _ _ _ Hb') as [o' [q [_ [A [B C]]]]]. exists o', q. auto.
+  Qed.
+
+  (* limit case 1 inside wash: when the non-local executables alone exceed the limit, exactly the tail of the price-sorted
+     list is removed with RLimitExecTail and every victim is priced no higher than every kept candidate *)
+  Theorem wash_displaces_lowest_priced p :
+    let a := run_phase1 env p in
+    let sorted := sort_desc (p1_exec a) in
+    (w_limit env < length (p1_exec a))%nat ->
+    forall y, In y (skipn (w_limit env) sorted) ->
+      In (hash y, RLimitExecTail) (wr_removed (wash env p)) /\
+      forall x, In x (firstn (w_limit env) sorted) -> pgp_of y <= pgp_of x.
+  Proof.
+    intros a sorted Hlt y Hy. split.
+    - unfold wash. fold a. fold sorted. unfold apply_limits.
+      assert (E : Nat.ltb (w_limit env) (length sorted) = true).
+      { apply Nat.ltb_lt. unfold sorted. rewrite sort_desc_length. auto. }
+      rewrite E.
+      destruct (publish (p1_pool a) (w_energy env) (sort_desc (firstn (w_limit env) sorted ++ p1_localexec a))) as [[p2 pub] bad].
+      cbn [wr_removed]. apply in_or_app. right. apply in_or_app. left. apply in_or_app. right.
+      unfold tag. apply in_map_iff. exists y. auto.
+    - intros x Hx.
+      assert (S := sort_desc_sorted (p1_exec a)). fold sorted in S.
+      clear - S Hx Hy. revert Hx Hy. generalize (w_limit env). revert x y.
+      induction sorted as [|z t IH]; intros x y n Hx Hy.
+      + destruct n; cbn in Hx; contradiction.
+      + destruct n as [|n]; [cbn in Hx; contradiction|].
+        inversion S as [|? ? S' F]; subst. cbn in Hx, Hy. destruct Hx as [<-|Hx].
+        * rewrite Forall_forall in F. apply F. eapply in_skipn; eauto.
+        * eapply IH; eauto.
+  Qed.
+
   (* what wash publishes was evaluated executable on this head and is not blocked *)
   Theorem published_were_evaluated p o' :
     In o' (wr_published (wash env p)) ->
